@@ -474,24 +474,25 @@ func (e *Executor) LoadDependencyOutputs(
 		}
 
 		targetResult, err := e.targetCache.Load(ctx, localDep.ChangeHash)
-		if err != nil {
-			// We cannot even get the target cache: re-run immediately
-			return rerunDependency()
-		}
 
-		progress := worker.NewProgressTracker(
-			fmt.Sprintf("%s: loading %s", target.Label, console.FCountOutputs(len(target.AllOutputs()))),
-			0,
-			update,
-		)
-		loadErr := e.registry.LoadOutputs(ctx, localDep, targetResult, progress)
+		// If we cannot even get the target result the dependency has to be re-run
+		// just like when its outputs cannot be loaded
+		loadErr := err
+		if err == nil {
+			progress := worker.NewProgressTracker(
+				fmt.Sprintf("%s: loading %s", target.Label, console.FCountOutputs(len(target.AllOutputs()))),
+				0,
+				update,
+			)
+			loadErr = e.registry.LoadOutputs(ctx, localDep, targetResult, progress)
+		}
 
 		if loadErr != nil || localDep.SkipsCache() {
 			logger.Debugf(
 				"%s: failed to load output for dependency %s (re-rerunning): err=%v no-cache=%t",
 				target.Label,
 				localDep.Label,
-				err,
+				loadErr,
 				target.SkipsCache(),
 			)
 			// In this case we need to also recursively re-load the dependencies of the dependency
